@@ -244,11 +244,12 @@ class C08(ValCheck):
 
     def gen_recipe(self, r):
         H, W, C = r.choice([(8, 8, 8), (6, 6, 16), (10, 4, 32), (4, 4, 64), (12, 12, 4)])
-        dtype = r.choice(["int8", "int8", "uint8"])
+        dtype = r.choice(["int8", "int8", "int8", "uint8", "uint8", "int16"])
         inp_q = list(netgen._rand_q(r, dtype))
         layers = []
         vals = [dict(shape=[1, H, W, C], q=inp_q)]
         shared_id = 0
+        bias64 = r.random() < 0.5  # 16-bit IFM: 64-bit bias (reduced 16-bit multiplier records) or 32-bit bias (full records)
         n = r.randint(1, 4)
         for li in range(n):
             src = r.randrange(len(vals)) if r.random() < 0.5 else len(vals) - 1
@@ -264,6 +265,8 @@ class C08(ValCheck):
                      dil=list(r.choice([(1, 1), (1, 1), (2, 2), (2, 1), (1, 2)])), pad="SAME",
                      act=r.choice(["NONE", "RELU", "RELU6"]), q=list(netgen._rand_q(r, dtype)), per_axis=dtype == "int8" and r.random() < 0.5,
                      wstyle=r.choice(["uniform", "sparse", "small", "extreme"]), wscale=netgen.f32(r.choice([0.002, 0.01])), bias=True, seed=r.randrange(1 << 30))
+            if dtype == "int16":
+                L["bias64"] = bias64
             if kind == "CONV_2D":
                 L["oc"] = oc
             if layers and r.random() < 0.4:
